@@ -1,6 +1,6 @@
 import GoWebdav.Lemmas.CaldavAgree
 /-!
-# C08, wire → backend for every RFC-conformant filter — against the independent strict reader
+# C08, wire → backend for every RFC-conformant document — against the independent strict reader
 
 `Spec.CaldavWire.readCompFilter` is the strict reading of the RFC 4791 §9.7 grammar (namespaces, child order, declared
 attributes, at least one bound on a time-range, is-not-defined alone).  For EVERY element that reader accepts — whoever
@@ -10,6 +10,12 @@ statements are in `Props/C08.lean`.)
 -/
 namespace GoWebdav.Props.C08
 open GoWebdav GoWebdav.Std.Xml GoWebdav.Impl.Caldav GoWebdav.Impl.CaldavWire GoWebdav.Spec.CaldavWire
+
+/-- wire → backend for EVERY calendar-query document the strict RFC 4791 reader accepts — whoever wrote it, with any of
+    DAV:prop / DAV:allprop / DAV:propname or none in front, calendar-data with or without comp and expand, a timezone
+    element, filter trees and component selections of any depth: the backend receives exactly the query it denotes -/
+theorem C08_rfc_document_reaches_backend (n : Node) (q : Query) (h : readQuery n = some q) : decodeQuery n = .ok q :=
+  GoWebdav.Lemmas.CaldavAgree.decodeQuery_of_read n q h
 
 /-- every RFC-conformant comp-filter element reaches the backend as the filter it denotes -/
 theorem C08_rfc_filter_reaches_backend (n : Node) (cf : CompFilter) (h : readCompFilter n = some cf) :
@@ -37,5 +43,16 @@ def foreignFilter : Node :=
        el "comp-filter" [att "name" "VALARM"] [el "is-not-defined" [] []]]]
 
 example : (readCompFilter foreignFilter).isSome = true := by decide
+
+/-- a whole conformant document of that kind: DAV:prop with a versioned calendar-data that expands but selects no
+    component, the filter above, a timezone -/
+def foreignDoc : Node :=
+  el "calendar-query" []
+    [dav "prop" [dav "getetag" [], el "calendar-data" [att "content-type" "text/calendar", att "version" "2.0"]
+       [el "expand" [att "start" "20240101T000000Z", att "end" "20240201T000000Z"] []]],
+     el "filter" [] [foreignFilter],
+     el "timezone" [] [.text "BEGIN:VTIMEZONE"]]
+
+example : (readQuery foreignDoc).isSome = true := by decide
 
 end GoWebdav.Props.C08
